@@ -15,7 +15,8 @@ import warnings
 
 
 def main():
-    job = json.load(open(sys.argv[1]))
+    with open(sys.argv[1]) as f:
+        job = json.load(f)
     out_path = sys.argv[2]
     res = {'ok': True, 'init_order': [], 'warnings': [], 'stdout': '', 'stderr': '', 'error': None, 'probe': None,
            'files': {}, 'blocked_hit': []}
